@@ -77,6 +77,7 @@ def init_delays(vc):
     vc.ensure(f'C15/__init__/delays-{form}/post/omitted-means-zero', form != 'none' or And(eq(F['max_delay'], 0), *[eq(an.fields['delay'], 0) for an in F['antennas']]))
     vc.ensure(f'C15/__init__/post/structure', And(len(F['antennas']) == nant, len(F['bg_streams']) == npol, F['start_obs'] is True,
                                                    *[an.fields['bg_cache'][0] is None and an.fields['bg_cache'][1] is None for an in F['antennas']]))
+    vc.ensure('C15/__init__/post/every-antenna-owns-its-cache-list', len({id(an.fields['bg_cache']) for an in F['antennas']}) == len(F['antennas']))
 
 
 def request(vc, later, view_cache=False):
@@ -197,6 +198,8 @@ def reset(vc):
     want = t if which == 'set_time' else (t1 + t if which == 'add_time' else t1)
     vc.ensure(f'C15/{which}/exc/none', o.ok)
     vc.ensure(f'C15/{which}/post/caches-cleared-and-start_obs', And(F['start_obs'] is True, *[an.fields['bg_cache'][0] is None and an.fields['bg_cache'][1] is None for an in F['antennas']]))
+    # ownership: every antenna has its own cache list (get_samples stores the tails by item assignment)
+    vc.ensure(f'C15/{which}/post/every-antenna-owns-its-cache-list', len({id(an.fields['bg_cache']) for an in F['antennas']}) == len(F['antennas']))
     clocks = [eq(F['t_start'], want)] + [eq(b.fields['t_start'], want) for b in F['bg_streams']] + \
              [eq(st.fields['t_start'], want) for an in F['antennas'] for st in an.fields['streams']] + \
              [b.fields['start_obs'] is True for b in F['bg_streams']] + [st.fields['start_obs'] is True for an in F['antennas'] for st in an.fields['streams']]
